@@ -51,7 +51,8 @@ COMPONENTS = {
 }
 RULE = ("run = one PROXY header (v1/v2; TCP4, TCP6, UNIX, UNKNOWN, LOCAL, UNSPEC; TLVs) or one structurally invalid "
         "header, followed by 0..40 application bytes, delivered in tape-chosen pieces with a cut inside the header "
-        "region in about half of the runs; non-trivial = the stream was cut at least once")
+        "region in about half of the runs; in a quarter of the runs a second connection to the same factory receives an incomplete header, "
+        "interleaved with the checked connection's deliveries; non-trivial = the stream was cut at least once")
 ASSUMPTIONS = [
     "invalid streams are limited to structural malformations (wrong signature/keyword/version/command/family, missing "
     "fields, short v2 address block, v1 line > 107 bytes, non-numeric port, non-ASCII address); out-of-range ports and "
@@ -272,15 +273,42 @@ def run(sim):
         first_min = 16 if avoid else 0
     stream = header + payload
     pieces = cut_stream(sim, stream, len(header), first_min)
+    # a second, concurrent connection to the same factory whose (valid) header is still incomplete: its deliveries are
+    # interleaved with the checked connection's; connections must not see each other's bytes
+    bg_pieces = []
+    if sim.draw_bool(0.25, "background-connection"):
+        desc2 = gen_valid(sim)
+        header2 = pp.build(desc2)
+        part = header2[:sim.draw_int(1, len(header2) - 1, "bgprefix")]
+        bg_pieces = net.cut(sim, part, None, ()) if len(part) > 1 and sim.draw_bool(0.5, "bgcut") else [part]
+        w2 = factory.buildProtocol(address.IPv4Address("TCP", "10.0.0.3", 3003))
+        t2 = net.SimTransport(sim, "S2")
+        t2.protocol = w2
+        w2.makeConnection(t2)
+        sim.fault("concurrent_connection_mid_header")
     sim.config = {"valid": valid, "label": label, "header_len": len(header), "payload_len": len(payload),
-                  "pieces": [len(p) for p in pieces][:12], "avoid_known": avoid}
+                  "pieces": [len(p) for p in pieces][:12], "avoid_known": avoid, "background_pieces": [len(p) for p in bg_pieces][:8]}
     sim.event("stream", label, header, payload)
+
+    def deliver_bg():
+        piece2 = bg_pieces.pop(0)
+        sim.event("deliver-bg", piece2)
+        if t2.disconnecting:
+            return
+        try:
+            w2.dataReceived(piece2)
+        except Violation:
+            raise
+        except Exception as e:  # not the checked connection (single-connection runs check this)
+            sim.event("bg-raised", type(e).__name__)
 
     w.makeConnection(t)
     raised = None
     delivered = 0
     for piece in pieces:
         sim.step(5000)
+        while bg_pieces and sim.draw_bool(0.6, "bg-first"):
+            deliver_bg()
         if t.disconnecting:
             break
         sim.event("deliver", piece)
